@@ -1,5 +1,6 @@
 PROP = dict(
         coq="Properties/C19.v",
+        tie_coq=["Properties/TieC19.v"],
         workloads=[
             dict(name="gauge-history", go_test="TestC19", runner="C19",
                  env=dict(quick=dict(VERIF_CASES=60), thorough=dict(VERIF_CASES=2000))),
